@@ -132,6 +132,12 @@ def _ops():
     add("P2 / 'x y'", lambda p: out_url(p["P2"] / "x y"))
     add("P2.parent", lambda p: out_url(p["P2"].parent))
     add("P0.join(URL('../y'))", lambda p: out_url(p["P0"].join(impl.URL("../y"))))
+    # equal-but-different operands ('' vs '/' path under an authority compare equal): anything keyed by URL equality confuses them
+    add("URL('http://a.com').join(URL(''))", lambda p: out_url(impl.URL("http://a.com").join(impl.URL(""))))
+    add("URL('http://a.com/').join(URL(''))", lambda p: out_url(impl.URL("http://a.com/").join(impl.URL(""))))
+    add("P0.join(URL('//b.org'))", lambda p: out_url(p["P0"].join(impl.URL("//b.org"))))
+    add("P0.join(URL('//b.org/'))", lambda p: out_url(p["P0"].join(impl.URL("//b.org/"))))
+    add("{URL('http://a.com'): 1}[URL('http://a.com/')]", lambda p: ({impl.URL("http://a.com"): 1}[impl.URL("http://a.com/")], str(impl.URL("http://a.com/"))))
     add("P2.origin()/relative()", lambda p: (out_url(p["P2"].origin()), out_url(p["P2"].relative())))
     add("P4.origin()", lambda p: out_url(p["P4"].origin()))
     add("P2.with_port(81)/with_user('u')", lambda p: (out_url(p["P2"].with_port(81)), out_url(p["P2"].with_user("u"))))
@@ -277,9 +283,9 @@ def plan(ctx):
                     tasks.append(("checks.C08", "task_histories", (cfg, first, 3, "full"), b, "h"))
         if quick:
             # every length-3 history whose first two steps are constructor / pickle / cache operations, default and size-1 caches
-            for cfg in (0, 2):
+            for cfg in (0,):
                 for first in warmers():
                     tasks.append(("checks.C08", "task_histories", (cfg, first, 3, "warm3"), b, "w"))
     ctx.notes["bounds"] = {"operations": n, "configs": [c[0] for c in CONFIGS], "depth": 2 if quick else 3,
-                           "quick_extra": "length-3 histories (warmer, warmer, any) under default and size-1 caches; warmers = constructor/build/pickle/copy/cache/flood operations" if quick else ""}
+                           "quick_extra": "length-3 histories (warmer, warmer, any) under the default cache configuration; warmers = constructor/build/pickle/copy/cache/flood operations" if quick else ""}
     return tasks
